@@ -10,4 +10,6 @@ CONSTANTS
   Cap = 2
   Buffered = FALSE
   Gaps = "all"
+  KeepData = TRUE
+  ExternalProg <- NoExternal
   Emit = TRUE
